@@ -10,3 +10,4 @@ INVARIANT LawCallDomain
 INVARIANT LawPlainCorrect
 INVARIANT LawFunctionUse
 INVARIANT LawWrongIsNotCorrect
+INVARIANT LawFunctionNameAsVariable
